@@ -127,6 +127,7 @@ fn fault_s() -> impl Strategy<Value = Fault> {
         // commit
         4 => (any::<u8>(), any::<u8>()).prop_map(|(ty, key)| Fault::DupKeyPair { ty, key }),
         4 => any::<u16>().prop_map(Fault::DupKeyExisting),
+        3 => (any::<u16>(), any::<u16>()).prop_map(|(a, b)| Fault::PurgeThenDupKey(a, b)),
         3 => (any::<u8>(), any::<u8>()).prop_map(|(ty, key)| Fault::UpsertMissTwice { ty, key }),
         3 => (any::<u8>(), any::<u8>()).prop_map(|(ty, key)| Fault::CreateAndUpsertMiss { ty, key }),
         5 => live_ref().prop_map(Fault::ForeignEndpoint),
